@@ -36,6 +36,7 @@ type Solver struct {
 	timeout int // ms per query
 	logf    *os.File
 
+	scoped   []*Term
 	gen      int // incremented whenever the process state is lost (Reset or restart)
 	hardKill bool
 
@@ -293,16 +294,35 @@ func (s *Solver) check1(extra []*Term, keep bool) Verdict {
 	return v
 }
 
-func (s *Solver) Pop() { s.send("(pop 1)\n") }
+func (s *Solver) Pop() {
+	s.send("(pop 1)\n")
+	for _, t := range s.scoped {
+		delete(s.emitted, t)
+		if t.op == OpUF {
+			delete(s.declUF, t.name)
+		}
+	}
+	s.scoped = nil
+}
 
 // GetValues evaluates scalar terms in the current model (after Check(..., keep=true) == Sat).
 func (s *Solver) GetValues(terms []*Term) []uint64 {
 	out := make([]uint64, len(terms))
 	// terms mentioning symbols the solver has never seen: define them and re-check
 	var sbd strings.Builder
+	before := map[*Term]bool{}
+	for t := range s.emitted {
+		before[t] = true
+	}
 	for _, t := range terms {
 		if !s.emitted[t] {
 			s.emit(t, &sbd)
+		}
+	}
+	// these definitions live in the pushed scope and disappear at Pop
+	for t := range s.emitted {
+		if !before[t] {
+			s.scoped = append(s.scoped, t)
 		}
 	}
 	if sbd.Len() > 0 {
